@@ -4719,6 +4719,43 @@ pub(crate) fn truncate_to_chain_state<P: consensus::Parameters, CL, R>(
             })?;
             Ok::<_, SqliteClientError>(())
         })?;
+
+        // Truncate each tree to the checkpoint that the frontier insertion has just created.
+        // `truncate_to_height_internal` below truncates the trees only while scanned blocks
+        // remain above the target height, and the rewind to the earliest shared checkpoint
+        // above may already have removed every one of them (the target lies in a range of
+        // unscanned blocks directly below that checkpoint); the tree state between the target
+        // and that checkpoint would then survive the truncation. A tree in which the new
+        // checkpoint was pruned on insertion is left to the classification performed below.
+        wdb.with_sapling_tree_mut(|tree| {
+            tree.truncate_to_checkpoint(&target_height)
+                .map(|_| ())
+                .map_err(|error| SqliteClientError::TruncateCommitmentTree {
+                    pool: ShieldedPool::Sapling,
+                    height: target_height,
+                    error,
+                })
+        })?;
+        #[cfg(feature = "orchard")]
+        wdb.with_orchard_tree_mut(|tree| {
+            tree.truncate_to_checkpoint(&target_height)
+                .map(|_| ())
+                .map_err(|error| SqliteClientError::TruncateCommitmentTree {
+                    pool: ShieldedPool::Orchard,
+                    height: target_height,
+                    error,
+                })
+        })?;
+        #[cfg(feature = "orchard")]
+        wdb.with_ironwood_tree_mut(|tree| {
+            tree.truncate_to_checkpoint(&target_height)
+                .map(|_| ())
+                .map_err(|error| SqliteClientError::TruncateCommitmentTree {
+                    pool: ShieldedPool::Ironwood,
+                    height: target_height,
+                    error,
+                })
+        })?;
     }
 
     // Truncate wallet data to the target height. This always trims the scan queue so that
